@@ -261,6 +261,30 @@ def entropy_of(fn):
     return sorted(out)
 
 
+def entropy_star(t, fn, _seen=None):
+    """entropy sources of fn and of every module-level package function it (transitively) calls,
+    resolved by bare name (F.cutout, Fdicom.add_noise_nps, _noise_to_3d, ...)"""
+    if not hasattr(t, '_modfuncs'):
+        t._modfuncs = {}
+        for rel, qn, f in t.funcs:
+            if '.' not in qn:
+                t._modfuncs.setdefault(qn, []).append(f)
+    seen = _seen if _seen is not None else set()
+    out = set(entropy_of(fn))
+    for c in ast.walk(fn):
+        if isinstance(c, ast.Call):
+            f = c.func
+            nm = f.attr if isinstance(f, ast.Attribute) else (f.id if isinstance(f, ast.Name) else None)
+            if isinstance(f, ast.Attribute) and isinstance(f.value, ast.Name) and f.value.id in ('self', 'random', 'np', 'random_utils', 'math', 'cv2'):
+                continue
+            for g in t._modfuncs.get(nm, []):
+                if id(g) in seen or g is fn:
+                    continue
+                seen.add(id(g))
+                out |= set(entropy_star(t, g, seen))
+    return sorted(out)
+
+
 INPLACE_METHODS = {'sort', 'append', 'extend', 'insert', 'remove', 'pop', 'clear', 'update', 'reverse', 'fill',
                    'setdefault', 'popitem', 'put', 'itemset', 'resize', 'setflags'}
 FRESH_CALLS = {'astype', 'copy', 'deepcopy', 'array', 'zeros', 'ones', 'empty', 'zeros_like', 'ones_like', 'full',
@@ -442,7 +466,7 @@ def main(out_dir):
                      'get_params_dependent_on_targets'):
             fn, owner = t.find(n, meth)
             if fn is not None:
-                e = entropy_of(fn)
+                e = entropy_star(t, fn)
                 # private helpers of the class called from the method
                 for c in ast.walk(fn):
                     if isinstance(c, ast.Call) and isinstance(c.func, ast.Attribute) and isinstance(c.func.value, ast.Name) \
@@ -451,7 +475,7 @@ def main(out_dir):
                         if h is None:
                             h, _ = t.find(n, '_%s%s' % (n, c.func.attr))
                         if h is not None and h is not fn:
-                            e = sorted(set(e) | set(entropy_of(h)))
+                            e = sorted(set(e) | set(entropy_star(t, h)))
                 draws[meth] = e
         outside = sorted({s for mth, e in draws.items() if mth not in ('get_params', 'get_params_dependent_on_targets', '__init__')
                           for s in e})
